@@ -66,7 +66,7 @@ def logical(n_min=1, n_max=7, names=None):
 def layout_opts():
     return st.fixed_dictionaries({
         "packpos": st.sampled_from([0, 0, 1, 7, 300]),
-        "pack_crc": st.booleans(),
+        "pack_crc": st.sampled_from([False, True, True, "partial"]),
         "numunpack": st.sampled_from(["auto", "auto", "always"]),
         "substreams": st.sampled_from(["auto", "auto", "auto", "omit"]),
         "dummy": st.sampled_from([-1, -1, 0, 1, 5]),
@@ -77,6 +77,7 @@ def layout_opts():
         "hdr_gap": st.sampled_from([0, 0, 3]),
         "startpos": st.sampled_from([None, None, None, "all", "partial"]),
         "archive_props": st.sampled_from([None, None, None, 1, 2]),
+        "comment": st.sampled_from([None, None, None, 1, 12]),
     })
 
 
